@@ -22,42 +22,8 @@ REPO = os.environ.get('EMD_VERIF_REPO', '/repo')
 
 
 def run_one(entry):
-    mid = entry['id']
-    rel = entry['file']
-    with open(os.path.join(REPO, rel)) as f:
-        src = f.read()
-    if src.count(entry['old']) != 1:
-        return mid, 'SKIP', 'anchor text occurs %d times' % src.count(entry['old']), ''
-    new = src.replace(entry['old'], entry['new'])
-    try:
-        compile(new, rel, 'exec')
-    except SyntaxError as e:
-        return mid, 'SKIP', 'variant does not compile: %s' % e, ''
-    results = {}
-    outs = {}
-    report.EVIDENCE_DIR = os.path.join('/tmp', 'emdverif-selftest-%d' % os.getpid())
-    for prop in entry['props']:
-        buf = io.StringIO()
-        with contextlib.redirect_stdout(buf):
-            rc = cli.run_property(prop, 'quick', 0, overrides={rel: new}, quiet=True)
-        results[prop] = rc
-        outs[prop] = buf.getvalue()
-    import shutil
-    shutil.rmtree(report.EVIDENCE_DIR, ignore_errors=True)
-    if entry['kind'] == 'breaking':
-        ok = any(rc == 1 for rc in results.values())
-        want = entry.get('expect')
-        if ok and want:
-            ok = any(want in o for o in outs.values())
-        status = 'OK' if ok else 'MISS'
-    else:
-        ok = all(rc == 0 for rc in results.values())
-        status = 'OK' if ok else 'FALSE-ALARM'
-    detail = ' '.join('%s=%d' % kv for kv in results.items())
-    text = ''
-    if status != 'OK':
-        text = '\n'.join(outs.values())
-    return mid, status, detail, text
+    from emdverif import selfval
+    return selfval.run_entry((entry, entry['props']))
 
 
 def main(argv):
